@@ -1103,6 +1103,14 @@ pub fn walks(out: &mut dyn Write, rng: &mut Rng, stride: u64) {
 /// move is played and the successor examined too.  Playouts from the opening never reach most of these configurations.
 pub fn sparse_family(out: &mut dyn Write, rng: &mut Rng, n: usize) {
     let mut dist = Dist::default();
+    for b in sparse_boards(rng, n) {
+        emit_with_successors(out, &mut dist, &b);
+    }
+    dist.print(out);
+}
+
+pub fn sparse_boards(rng: &mut Rng, n: usize) -> Vec<Board> {
+    let mut res: Vec<Board> = Vec::new();
     let mut made = 0usize;
     let mut tries = 0usize;
     while made < n && tries < n * 40 {
@@ -1165,14 +1173,14 @@ pub fn sparse_family(out: &mut dyn Write, rng: &mut Rng, n: usize) {
             if r != 0 { t.push('/'); }
         }
         if rights.is_empty() { rights.push('-'); }
-        let half = *rng.pick(&[0u64, 0, 1, 7, 49, 98, 99, 100]);
+        let half = *rng.pick(&[0u64, 0, 0, 1, 7, 49, 98, 99, 100, 101, 150]);
         let fen = format!("{t} {turn} {rights} {ep} {half} {}", 1 + rng.below(90));
         if let Ok(b) = fen.parse::<Board>() {
             made += 1;
-            emit_with_successors(out, &mut dist, &b);
+            res.push(b);
         }
     }
-    dist.print(out);
+    res
 }
 
 pub fn small_family(out: &mut dyn Write, with_moves: bool) {
